@@ -230,6 +230,7 @@ def step (s : State) (toks : List String) : State × String :=
   | ["@", "fop", _ty, _op, _a, _b] => (s, "agree")
   | ["@", "fident", _ty, _a] => (s, "ident-ok")
   | "@" :: "user" :: rest => (s, C19User.answer rest)
+  | "@" :: "userw" :: rest => (s, C19Wrap.answerCounting rest)
   | "@" :: cmd :: rest =>
     if ["trop", "trsc", "trneg", "trpow", "recop", "recsc", "recneg", "recpow", "freal", "trreal", "recreal"].contains cmd then
       (s, C19Wrap.answer cmd rest)
